@@ -3,6 +3,7 @@ package props
 import (
 	"encoding/json"
 	"fmt"
+	"path/filepath"
 	"reflect"
 	"sort"
 	"strings"
@@ -321,6 +322,26 @@ func TestC06(t *testing.T) {
 		r.Exhaustive("value-pairs", !r.Replaying())
 	}
 
+	// ---- saved fuzz inputs (replays of FuzzC06 crashers)
+	if r.WantLayer("corpus", true) {
+		n := 0
+		for _, f := range fuzzFiles("FuzzC06", "C06") {
+			args, ok := readFuzzArgs(f)
+			if !ok || len(args) != 4 || !r.WantCell(filepath.Base(f)) {
+				continue
+			}
+			n++
+			text, _ := args[0].(string)
+			a, _ := args[1].(uint64)
+			b, _ := args[2].(uint64)
+			c, _ := args[3].(uint64)
+			ds := c06FuzzOne(text, uint8(a), uint8(b), uint8(c))
+			r.Case("corpus "+filepath.Base(f), true, "corpus")
+			reportAll(r, "corpus", filepath.Base(f), ds, map[string]interface{}{"text": text})
+		}
+		r.Cells(n, n)
+	}
+
 	escAlpha := rapid.StringOfN(rapid.RuneFrom([]rune("\\\"/bfnrtuav0123456789{}[]:, \n\t\r\x00\x1f<>&'aZé😀\u2028")), 1, 60, -1)
 	textG := rapid.OneOf(rapid.SampledFrom(c06Texts), escAlpha, rapid.StringN(1, 200, -1))
 	tags := []ap.LangRef{"en", "fr", "de", "pt-BR", "zh-Hans", "en-GB"}
@@ -364,5 +385,44 @@ func TestC06(t *testing.T) {
 		r.Case(canon, cls != "plain", "random class="+cls, "random codec="+c06Codecs[ci].name, "random form="+form, "random property="+p.Field)
 		r.Sample(canon, map[string]interface{}{"layer": "random", "property": p.GoType + "." + p.Field, "codec": c06Codecs[ci].name, "value": vocab.Dump(nl)})
 		failUnknown(r, t, "random", ds, map[string]interface{}{"property": p.GoType + "." + p.Field, "codec": c06Codecs[ci].name, "value": vocab.Dump(nl)})
+	})
+}
+
+// c06FuzzOne stores one text in one property, in one form, through one codec, and as a value on its own through one pair.
+func c06FuzzOne(text string, prop, form, codec uint8) (ds []keyed) {
+	if text == "" || !utf8.ValidString(text) {
+		return nil // outside the domain (empty text is "absent"; the property speaks of valid UTF-8)
+	}
+	p := c06Props[int(prop)%len(c06Props)]
+	var nl ap.NaturalLanguageValues
+	switch form % 3 {
+	case 0:
+		nl = ap.NaturalLanguageValues{{Ref: ap.NilLangRef, Value: ap.Content(text)}}
+	case 1:
+		nl = ap.NaturalLanguageValues{{Ref: "en", Value: ap.Content(text)}}
+	default:
+		nl = ap.NaturalLanguageValues{{Ref: "en", Value: ap.Content(text)}, {Ref: "fr", Value: ap.Content("deuxième " + text)}}
+	}
+	ds = append(ds, c06Check(p, nl, int(codec)%len(c06Codecs))...)
+	ds = append(ds, c06ValueCheck(nl, c06ValuePairs[int(codec)%len(c06ValuePairs)])...)
+	return ds
+}
+
+// FuzzC06 is the native coverage-guided target (thorough tier): the text is the input, three selectors pick property, form and codec.
+func FuzzC06(f *testing.F) {
+	for i, s := range c06Texts {
+		f.Add(s, uint8(i), uint8(i/3), uint8(i/7))
+	}
+	known := ev.LoadFindings("C06")
+	f.Fuzz(func(t *testing.T, text string, prop, form, codec uint8) {
+		if len(text) > 1<<12 {
+			return
+		}
+		for _, d := range c06FuzzOne(text, prop, form, codec) {
+			if known.Peek(d.Key) {
+				continue
+			}
+			t.Fatalf("VIOLATION-KEY property=C06 key=%q detail=%q", d.Key, d.Detail)
+		}
 	})
 }
